@@ -308,4 +308,63 @@ def batchDelete (m : Store) (sc : BScript) (keys : List Bytes) : Option (Store Ã
   | (_, none) => none
   | (s, some _) => some (s.store, s.trace)
 
+/-! ## whole call sequences: the client over changing layouts against the plain ordered map -/
+
+inductive Call
+  | get (k : Bytes) | put (k v : Bytes) | delete (k : Bytes) | cas (k : Bytes) (prev : Option Bytes) (new : Bytes)
+  | batchGet (keys : List Bytes) | batchPut (items : List Item) | batchDelete (keys : List Bytes)
+  | scan (start end_ : Bytes) (limit : Nat) (keyOnly : Bool) | reverseScan (start end_ : Bytes) (limit : Nat) (keyOnly : Bool)
+  | deleteRange (start end_ : Bytes) | checksum (start end_ : Bytes)
+
+inductive Result
+  | unit | value (v : Option Bytes) | swapped (prev : Option Bytes) (ok : Bool)
+  | values (vs : List (Option Bytes)) | pairs (kvs : List KV) | sum (c : Checksum)
+  deriving DecidableEq
+
+/-- what the call does on ONE ordered map (no regions) -/
+def specStep (m : Store) : Call â†’ Store Ã— Result
+  | .get k => (m, .value (m.get k))
+  | .put k v => (m.insert k v, .unit)
+  | .delete k => (m.erase k, .unit)
+  | .cas k prev new => (if m.get k = prev then m.insert k new else m, .swapped (m.get k) (decide (m.get k = prev)))
+  | .batchGet keys => (m, .values (keys.map m.get))
+  | .batchPut items => (items.foldl (fun a it => a.insert it.1 it.2) m, .unit)
+  | .batchDelete keys => (keys.foldl (fun a k => a.erase k) m, .unit)
+  | .scan s e limit ko => (m, .pairs (((m.range s (toBound e)).take limit).map (if ko then stripValue else id)))
+  | .reverseScan s e limit ko => (m, .pairs (((m.rrange (some s) e).take limit).map (if ko then stripValue else id)))
+  | .deleteRange s e => (m.eraseRange s (toBound e), .unit)
+  | .checksum s e => (m, .sum (csOf (m.range s (toBound e))))
+
+/-- the observations of one call: per-attempt layouts / region errors, and for batch calls the grouping layouts and outcomes -/
+structure Obs where
+  seq : SScript
+  batch : BScript
+
+/-- the modelled client performing the call; `none`: the call did not complete under these observations -/
+def clientStep (m : Store) (o : Obs) : Call â†’ Option (Store Ã— Result)
+  | .get k => (get m o.seq k).map fun r => (m, .value r)
+  | .put k v => (put m o.seq k v).map fun m' => (m', .unit)
+  | .delete k => (delete m o.seq k).map fun m' => (m', .unit)
+  | .cas k prev new => (cas m o.seq k prev new).map fun r => (r.1, .swapped r.2.1 r.2.2)
+  | .batchGet keys => (batchGet m o.batch keys).map fun r => (m, .values r.1)
+  | .batchPut items => (batchPut m o.batch items).map fun r => (r.1, .unit)
+  | .batchDelete keys => (batchDelete m o.batch keys).map fun r => (r.1, .unit)
+  | .scan s e limit ko => (scan m o.seq s e limit ko).map fun r => (m, .pairs r.1)
+  | .reverseScan s e limit ko => (reverseScan m o.seq s e limit ko).map fun r => (m, .pairs r.1)
+  | .deleteRange s e => (deleteRange m o.seq s e).map fun r => (r.1, .unit)
+  | .checksum s e => (checksum m o.seq s e).map fun r => (m, .sum r.1)
+
+def specRun (m : Store) : List Call â†’ Store Ã— List Result
+  | [] => (m, [])
+  | c :: cs => let r := specStep m c; let t := specRun r.1 cs; (t.1, r.2 :: t.2)
+
+def clientRun (m : Store) : List (Call Ã— Obs) â†’ Option (Store Ã— List Result)
+  | [] => some (m, [])
+  | (c, o) :: cs =>
+    match clientStep m o c with
+    | none => none
+    | some r => match clientRun r.1 cs with
+      | none => none
+      | some t => some (t.1, r.2 :: t.2)
+
 end CGV.RawKV
